@@ -203,6 +203,7 @@ static void run_config(int b, int r, int col, int depth)
 	snprintf(cfg_name, sizeof(cfg_name), "buf%d/start=(%d,col %d)", b, r, col);
 	snprintf(setup, sizeof(setup), ":%d\n%d|", r + 1, col + 1);
 	nx_bound = depth;
+	snprintf(nx_cfg_args, sizeof(nx_cfg_args), "cfg=%d,%d,%d", b, r, col);
 	nvx_feed(setup, -1);
 	nx_run(3, argv);
 	nvx_pend_pos = nvx_pend_len = 0;
